@@ -36,6 +36,23 @@ def unit_oracle(lexeme):
     return ms[0] if len(ms) == 1 else None
 
 
+ABBRS = ['EST', 'EDT', 'CEST', 'CET', 'PDT', 'PST', 'MST', 'HST', 'UTC', 'GMT', 'UT', 'Z', 'XYZ', 'EST5EDT', 'Europe/Stockholm', 'A', 'abc',
+         'WET', 'EET', 'NZDT', '+0100', '-0500', '(CEST)', 'CEST (x)']
+AMBIENT = ['~', '', 'UTC', 'Europe/Stockholm', 'America/New_York', ':garbage', 'EST5EDT', 'Asia/Kolkata']
+
+
+def abbreviation_family():
+    reqs = []
+    for ab in ABBRS:
+        for t in (1768478400, 1752580800, 951782400):          # a January, a July, a leap-day instant
+            for fmt in ('%a, %d %b %Y %H:%M:%S', '%d %b %Y %H:%M:%S'):
+                date = time.strftime(fmt, time.gmtime(t)) + ' ' + ab
+                for now in (1790000000, 1768478400 + 86400):   # September (summer time) and January
+                    for amb in AMBIENT:
+                        reqs.append(('tparse', A(date), A(str(now)), A(amb)))
+    return reqs, len(ABBRS)
+
+
 def run(rep):
     rng = random.Random(rep.seed)
     sc = vlib.Scratch()
@@ -61,8 +78,34 @@ def run(rep):
         d = time.strftime(fmt, time.gmtime(t + off)) + rng.choice([' ', '  ', ' ']) + zone
         now = t + rng.randrange(-100, 10 ** 6)
         reqs.append(('tparse', A(d), A(str(now)), A(rng.choice(TZS))))
+    # zone ABBREVIATIONS (time.c tzabbr: setenv TZ=<abbreviation>, localtime, then put the process's own zone back) under every state of
+    # the process's TZ: unset (`~`: TZ_STATE_LOCAL), empty (TZ_STATE_UTC), set to a zone / a POSIX string / garbage (TZ_STATE_SET)
+    abbr_reqs, nfam = abbreviation_family()
+    reqs += abbr_reqs
     d = vlib.Differential(rep, [h], env=env, spec_ops={'tparse'}, name='h_expr')
     impl, model, spec = d.run(reqs, shrink=False)
+    # (1) the instant a Date header names does not depend on the zone mdsort runs in
+    groups = {}
+    for r, i in list(zip(reqs, impl))[-len(abbr_reqs):]:
+        groups.setdefault((r[1], r[2]), {})[r[3]] = i
+    ambient_bad = [(k, v) for k, v in groups.items() if len(set(v.values())) > 1]
+    for (date, now), v in ambient_bad[:4]:
+        rep.finding('unlisted', {'harness': 'h_expr', 'what': 'time_parse of one Date value gives different instants under different TZ settings of the process',
+                                 'date': date.decode('latin-1'), 'now': now.decode(), 'by_TZ (~ = unset)': {k.decode('latin-1'): x for k, x in v.items()}})
+    # (2) afterwards the process has its own zone back: the environment variable and the offset localtime() computes
+    rlines = ['tzrestore ' + ' '.join(vlib.hexs(a) for a in r[1:]) for r in abbr_reqs]
+    rout = vlib.run_batch([h], rlines, env)
+    restore_bad = 0
+    for r, o in zip(abbr_reqs, rout):
+        m = re.match(r'^(OK -?\d+|NONE) TZ=(\S+) OFF=(-?\d+) WAS=(-?\d+)$', o)
+        want_tz = '~' if r[3] == b'~' else vlib.hexs(r[3])
+        if not m or m.group(2) != want_tz or m.group(3) != m.group(4):
+            restore_bad += 1
+            if restore_bad <= 4:
+                rep.finding('sanitizer-fault' if o.startswith('FAULT') else 'unlisted',
+                            {'harness': 'h_expr', 'request': 'tzrestore ' + ' '.join(x.decode('latin-1') for x in r[1:]), 'implementation': o,
+                             'what': 'after time_parse the process is not in its own time zone again: TZ must be %s and the offset of `now` unchanged'
+                                     % ('unset' if r[3] == b'~' else repr(r[3].decode('latin-1')))})
     ntz = 0
     for r, i in zip(reqs, impl):
         if r[0] == 'tzoff':
@@ -72,6 +115,13 @@ def run(rep):
                 rep.finding('unlisted', {'harness': 'h_expr', 'request': d.line(r), 'implementation': i, 'specification': want,
                                          'what': 'numeric zone offset'})
     d.conclude('time.c <-> Model/Time.lean')
+    rep.coverage['zone_abbreviations'] = {
+        'abbreviations': ABBRS, 'process_TZ (~ = unset)': AMBIENT, 'requests': len(abbr_reqs), 'accepted': sum(1 for i in impl[-len(abbr_reqs):] if i.startswith('OK')),
+        'depends_on_process_TZ': len(ambient_bad), 'zone_not_restored': restore_bad,
+        'rule': 'Date values ending in a zone abbreviation / zone name / POSIX string / numeric zone, two layouts, three instants, two values '
+                'of now, parsed by the real time_parse with TZ unset, empty and set to five values: implementation = model = platform '
+                'specification; the result is the same under every TZ of the process; after the call getenv("TZ") is what it was (unset stays '
+                'unset) and localtime(now) has the offset it had before (op tzrestore)'}
 
     # date conditions around the true age, units, abbreviations, overflow: through the real parser and evaluator
     cases, expect = [], []
